@@ -151,11 +151,27 @@ def derived_signals_start_without_stale_cache():
     _stub_numerics()
     fs, times = _signal(2)
     fs._lazy_values = symarr("cached_values", len(fs.times))
+    before = _defining_state(fs)
+    sub = symarr("sub_window")
+    assume(len(sub) >= 2)
+    assume(And(sub[1] - sub[0] > 0, sub[0] >= times[0], sub[-1] <= times[-1]))
+    lead = real("other_lead")
+    assume(lead >= 0)
+
+    def copy_then_buffers(s):
+        c = s.copy()
+        c.set_buffers(leading=lead, trailing=lead, force=True)
+        return c
     for name, make in (("copy", lambda s: s.copy()), ("mul", lambda s: s * real("c1")), ("rmul", lambda s: real("c2") * s),
-                       ("truediv", lambda s: s / real("c3")), ("add", lambda s: s + s.copy())):
+                       ("truediv", lambda s: s / real("c3")), ("add", lambda s: s + s.copy()),
+                       ("with_times(sub-window)", lambda s: s.with_times(sub)), ("copy-then-set_buffers", copy_then_buffers)):
         r = make(fs)
         prove(name + ":result-has-no-inherited-cache", Not(_cached(r)))
-        prove(name + ":operand-definition-untouched", _cached(fs))
+        prove(name + ":operand-keeps-its-cache", _cached(fs))
+        # ... which is only sound because the operand's definition is untouched (no shared component lists)
+        prove(name + ":operand-definition-untouched", eq(_defining_state(fs), before))
+        prove(name + ":result-shares-no-component-with-the-operand", Not(shares(
+            [r._t0s, r._buffers, r._factors, r._filters], [fs._t0s, fs._buffers, fs._factors, fs._filters])))
 
 
 # ---------------------------------------------------------------------------
